@@ -166,6 +166,14 @@ impl TransactionManager {
     @@TransactionManager::record_read@@
 
     @@TransactionManager::gc@@
+
+    @@TransactionManager::current_epoch@@
+
+    @@TransactionManager::min_active_epoch@@
+
+    @@TransactionManager::mark_committed@@
+
+    @@TransactionManager::last_assigned_tx_id@@
 }
 
 // ---- C03 over the contracts alone (callers see only callee contracts) -------------------------------
@@ -556,7 +564,37 @@ proof {
         }
     }
 }''')
+    # ---- small accessors the garbage-collection horizon is built from ----
+    f = u.method(SRC, 'TransactionManager', 'current_epoch').D1().ret('r').props('C02', 'C03')
+    f.sub('E2', 'self.current_epoch.load(Ordering::Acquire)', 'load_u64(&self.current_epoch)')
+    f.ensures('value', 'r.0 == self.current_epoch')
+    f = u.method(SRC, 'TransactionManager', 'min_active_epoch').D1().ret('r').props('C02', 'C03')
+    f.sub('E3', '    let txns = self.transactions.read();\n', '')
+    f.resub('E3', r'\btxns\b', 'self.transactions')
+    f.R8t('Option<EpochId>')
+    f.ensures('lower_bound_of_every_active_snapshot', 'forall|t: TxId| active(self.transactions@, t) ==> r.0 <= #[trigger] self.transactions@[t].start_epoch.0')
+    # (deliberately NOT required: that the bound is attained by some active transaction - a lower horizon only makes version GC keep more)
+    f.body_start('proof { axiom_keys(); }\nlet ghost T0 = self.transactions@;')
+    L = f.loop(0).kind('for').iter('it')
+    L.invariants(('keys', 'obeys_key_model::<TxId>() && obeys_key_model::<EntityId>()'), ('frame', 'T0 == self.transactions@'),
+                 ('seen_sound', 'forall|i: int| 0 <= i < it.seq().len() ==> T0.contains_key(*(#[trigger] it.seq()[i]).0) && T0[*it.seq()[i].0] == *it.seq()[i].1'),
+                 ('seen_complete', 'forall|kk: TxId| T0.contains_key(kk) ==> exists|i: int| 0 <= i < it.seq().len() && *it.seq()[i].0 == kk'),
+                 ('lower_bound', 'forall|i: int| 0 <= i < it.index@ ==> (#[trigger] active(T0, *it.seq()[i].0) ==> m__ is Some && (m__->0).0 <= T0[*it.seq()[i].0].start_epoch.0)'))
+    L.after('''proof {
+    assert forall|t: TxId| active(T0, t) implies m__ is Some && (m__->0).0 <= #[trigger] T0[t].start_epoch.0 by {
+        if T0.contains_key(t) { }
+    }
+}''')
+    f = u.method(SRC, 'TransactionManager', 'mark_committed').D1().props('C03')
+    f.sub('E3', 'pub fn mark_committed(&self,', 'pub fn mark_committed(&mut self,')
+    f.sub('E3', 'self.committed_epochs.write().insert(', 'self.committed_epochs.insert(')
+    f.ensures('recorded', 'final(self).committed_epochs@ == old(self).committed_epochs@.insert(tx_id, epoch)')
+    f.ensures('frame', 'final(self).transactions@ == old(self).transactions@ && final(self).current_epoch == old(self).current_epoch && final(self).next_tx_id == old(self).next_tx_id')
+    f.body_start('proof { axiom_keys(); }')
+    f = u.method(SRC, 'TransactionManager', 'last_assigned_tx_id').D1().ret('r').props('C20')
+    f.sub('E2', 'self.next_tx_id.load(Ordering::Relaxed)', 'load_u64(&self.next_tx_id)')
+    f.ensures('value', 'match r { Some(t) => self.next_tx_id > 1 && t.0 == self.next_tx_id - 1, None => self.next_tx_id <= 1 }')
     u.not_covered += [
-                      'TransactionManager::abort_all_active (values_mut), min_active_epoch, active_count',
+                      'TransactionManager::abort_all_active (HashMap::values_mut: no vstd model), active_count, state / start_epoch / isolation_level (Option::map closures), get_write_set',
                       'Session / operators calling the manager; parallel.rs; every multi-threaded interleaving']
     return u
